@@ -81,6 +81,48 @@ FUNCTIONS = [
     "autoarray.dataset.imaging.simulator.SimulatorImaging.via_image_from",
     "autoarray.dataset.preprocess.noise_map_with_signal_to_noise_limit_from",
 ]
+BOUNDS = {
+    "quick": "symbolic reals: origin o=(oy,ox) and shift d=(dy,dx) (unbounded except where stated), array values, the origin-relative query "
+             "coordinates / pixel pairs / radial centre. Enumerated: pixel scales from the dyadic set {(0.5,2),(1,1),(2,0.25),(0.25,0.5),(3,1)}; "
+             "masks = 12 named masks up to 7x7 (ring with hole, off-centre blob, boundary-touching, two components, fully unmasked, single pixel, "
+             "row, cross, disc, corner) plus ALL masks (>=1 unmasked pixel, by forking) of every shape with <= 6 pixels; kernel (3,3), sub size 2, "
+             "resize pads (+2,+1)/(-1,-2), zoom buffers 0/1. ~75 mask-level outputs per mask. Pixel indices of translated points: util level with "
+             "unbounded symbolic points (shapes 5x8,6x9,3x3,4x4), class level with points at most one pixel outside the extent (2x3, 3x2). Radial "
+             "projection: 3 shape/scale/angle combinations, centre anywhere inside the extent. Mappers: rectangular (3x3 / 3x4 meshes) on 4 named "
+             "masks + all 2x2 masks, Delaunay (9 fixed origin-relative vertices) on 2 named masks, data grid = sub-size-2 over-sampled pixel centres. "
+             "Datasets (apply_mask / noise scaling / over sampling / trimming / simulator / S/N-limited noise map): 4 named masks, concrete dyadic "
+             "data and noise values. Overlay image mesh (2x2) on 2 named masks with |o|,|o+d| <= 1 (0.75) pixel per axis.",
+    "thorough": "as quick plus ALL masks of 3x3, 2x4, 4x2, 2x5, 5x2; every named mask a second time with kernel (3,5), sub size 3, pads (+1,+4); more "
+                "shapes for points / radial; rectangular + Delaunay mappers on all 2x3 masks and more named masks; datasets on 8 named masks and all "
+                "2x3 and 2x2 masks; overlay additionally on blob6x7 (2x3 mesh) and all 2x2 masks.",
+}
+OUTSIDE = [
+    "image_mesh.Hilbert / HilbertBalanced (scipy.interpolate.griddata / interp1d on the mask geometry): not executed symbolically",
+    "pixel scales outside the dyadic set; symbolic pixel scales (non-linear terms o/s*s)",
+    "masks larger than the named list / the forked shapes; kernel shapes, sub sizes and pads other than the listed ones",
+    "Overlay mesh: origins more than one pixel away from (0,0) (only while finding overlay-mesh-origin is open: the defective code indexes "
+    "the mask with origin-dependent pixel indices, i.e. the number of paths grows with the bound)",
+    "mappers: data grids other than the over-sampled pixel centres (e.g. deflected source-plane grids); Voronoi mappers (C library absent); "
+    "border relocation (C18)",
+    "dataset pixel values are concrete (medians, Poisson draws and scipy convolution need numbers); only origins are symbolic there",
+    "float64 rounding of o+d (exact reals in the solver; replay runs in float64 with 1e-7 tolerance)",
+]
+STUBS = [
+    "scipy.spatial.Delaunay (MapperDelaunay): for vertices / query points of the form origin + constant the real qhull routine runs on the "
+    "origin-relative constants; simplices and find_simplex answers are reused for the translated points (contract: qhull's triangulation and "
+    "point location are translation invariant); anything not of that form raises Unsupported (harness error, never a pass)",
+    "scipy.signal.convolve2d, np.random.poisson (SimulatorImaging): receive all-concrete object arrays, converted to float64, real routine",
+    "np.arctan2 (radial projection): arguments whose z3 term simplifies to a numeral are passed to the real function (the grid minus its centre "
+    "is concrete once the origin cancels); otherwise the engine's unit-vector angle model applies",
+]
+ASSUMPTIONS = [
+    "the translated structures are built by the public constructors with origin=o+d (mask, arrays, datasets) and user-supplied coordinates "
+    "(query points, radial centre, Delaunay vertices) are translated together with the origin",
+    "relation checked: F(o+d) == F(o) + d for coordinate outputs (extent: x entries by dx, y entries by dy), F(o+d) == F(o) for index / count / "
+    "weight / matrix outputs; an exception at o must be the same exception at o+d (only MaskException of blurring / circular_radius and the "
+    "trimming errors of tiny arrays are accepted as results)",
+    "mask bits explored by forking; known-finding regions are z3 predicates 'result identical at o and o+d' (origin ignored) per entry point",
+]
 EXPLORER_OPTS = {"timeout_ms": 8000, "max_paths": 20000, "max_candidates": 40}
 BUDGET_S = {"quick": 600, "thorough": 2300}
 
@@ -832,7 +874,7 @@ def cases(tier):
         out.append(("case_dataset", {"name": name, "scales": SCALES[n % len(SCALES)]}))
     if not quick:
         out.append(("case_dataset", {"H": 2, "W": 3, "scales": [0.25, 0.5]}, {"split": 4}))
-        out.append(("case_dataset", {"H": 3, "W": 3, "scales": [0.5, 2.0]}, {"split": 5}))
+        out.append(("case_dataset", {"H": 2, "W": 2, "scales": [0.5, 2.0]}, {"split": 2}))
     caps = [(H, W) for H in range(1, 4) for W in range(1, 4) if H * W <= 6]
     if not quick:
         caps += [(3, 3), (2, 4), (4, 2), (2, 5), (5, 2)]
